@@ -77,17 +77,58 @@ def r1(ctx):
         cands = [f for f in ctx.prog.funcs_in("whatshap.variants") if any(isinstance(c, ast.Call) and u(c.func) == "get_tag_or_default" for c in ast.walk(f.node))]
         ctx.require(cands, "get_tag_or_default use not found in variants.py")
         rs = [f for f in cands if f.cls is not None][0]
-    hpd = psd = None
-    for n in walk_function(rs.node):
-        if isinstance(n, ast.Assign) and isinstance(n.value, ast.Call) and u(n.value.func) == "get_tag_or_default" and len(n.value.args) == 3:
-            if u(n.value.args[1]) == "'HP'":
-                hpd = (u(n.targets[0]), n.value.args[2])
-            if u(n.value.args[1]) == "'PS'":
-                psd = (u(n.targets[0]), n.value.args[2])
-    ok = hpd is not None and psd is not None and u(hpd[1]) == "-1" and u(psd[1]) == "-1"
     reads = [c for c in ctx.prog.calls_in(rs.node) if u(c.func) == "Read" and len(c.args) >= 8]
-    ok = ok and len(reads) >= 1 and u(reads[0].args[6]) == hpd[0] and u(reads[0].args[7]) == psd[0]
-    led.append(("tags -> Read(HP_tag, PS_tag), default -1", 0, ok, rs.loc(), "Read(..., %s, %s)" % (hpd[0] if hpd else "?", psd[0] if psd else "?")))
+
+    def tag_values(e, tag, depth=0, seen=()):
+        """set of sources an expression can take its value from: {'tag', 'default:<text>'} -- None if something else"""
+        if depth > 6:
+            return None
+        if isinstance(e, ast.Call) and u(e.func) == "int" and len(e.args) == 1:
+            return tag_values(e.args[0], tag, depth + 1, seen)
+        if isinstance(e, ast.Call) and isinstance(e.func, ast.Attribute) and e.func.attr == "get_tag" and e.args and u(e.args[0]) == "'%s'" % tag:
+            return {"tag"}
+        if isinstance(e, ast.Call) and u(e.func).endswith("get_tag_or_default") and len(e.args) == 3 and u(e.args[1]) == "'%s'" % tag:
+            return {"tag", "default:" + u(e.args[2])}
+        if isinstance(e, ast.Constant) or (isinstance(e, ast.UnaryOp) and isinstance(e.operand, ast.Constant)):
+            return {"default:" + u(e)}
+        if isinstance(e, ast.IfExp):
+            a_, b_ = tag_values(e.body, tag, depth + 1, seen), tag_values(e.orelse, tag, depth + 1, seen)
+            return None if a_ is None or b_ is None else a_ | b_
+        if isinstance(e, ast.Name):
+            if e.id in seen:
+                return set()  # x = int(x): no new source
+            defs = [v_ for _, v_ in util.assignments_to(rs.node, e.id)]
+            defs = [(v_[1].elts[v_[2]] if isinstance(v_, tuple) and v_[0] == "unpack" and isinstance(v_[1], (ast.Tuple, ast.List)) and v_[2] < len(v_[1].elts) else v_) for v_ in defs]
+            if not defs or not all(isinstance(v_, ast.AST) for v_ in defs):
+                return None
+            out = set()
+            for v_ in defs:
+                if isinstance(v_, ast.Name) and v_.id == e.id:
+                    continue
+                r_ = tag_values(v_, tag, depth + 1, tuple(seen) + (e.id,))
+                if r_ is None:
+                    return None
+                out |= r_
+            return out
+        return None
+
+    hv = tag_values(reads[0].args[6], "HP") if reads else None
+    pv = tag_values(reads[0].args[7], "PS") if reads else None
+    ok = None if (hv is None or pv is None) else (hv == {"tag", "default:-1"} and pv == {"tag", "default:-1"})
+    # ... and they are this alignment's own: no path through the alignment loop reaches Read(...) with a value left from the previous one
+    if reads and ok:
+        rcfg = ctx.cfg(rs)
+        lp_ = reads[0]
+        while lp_ is not None and not isinstance(lp_, ast.For):
+            lp_ = getattr(lp_, "parent", None)
+        if lp_ is not None:
+            for a_ in (reads[0].args[6], reads[0].args[7]):
+                if isinstance(a_, ast.Name):
+                    sp, nd = util.stale_path_into_use(rcfg, lp_, a_.id, rcfg.node_containing(reads[0]))
+                    if sp is not None:
+                        ok = False
+                        ctx.ob(rs.qual, "tags-are-the-alignments-own:%s" % a_.id, False, rs.loc(reads[0]), "`%s` can reach Read(...) with the value of the previous alignment: an untagged read inherits its neighbour's haplotype / phase set and votes in haplotagphase" % a_.id, rcfg.describe_path(sp))
+    led.append(("tags -> Read(HP_tag, PS_tag), default -1", 0, ok, rs.loc(), "Read(..., %s, %s): HP from %s, PS from %s" % (u(reads[0].args[6]) if reads else "?", u(reads[0].args[7]) if reads else "?", sorted(hv) if hv else "?", sorted(pv) if pv else "?")))
     # core.pyx: positional parameters 7/8 are HP_tag / PS_tag with default -1
     ci = ctx.func("whatshap.core.Read.__cinit__")
     params = util.params_of(ci.node)
@@ -108,11 +149,13 @@ def r1(ctx):
     cfg = ctx.cfg(cv)
     ok = False
     if ps_r and ht_r:
-        for n in walk_function(cv.node):
-            if isinstance(n, ast.If) and any(isinstance(x, ast.Continue) for x in n.body):
-                at = atoms(n.test, False)
-                if ("%s < 0" % ps_r[0], False) in at and ("%s < 0" % ht_r[0], False) in at:
-                    ok = True
+        # every vote is cast under `ps >= 0 and ht >= 0`, whatever the shape of the skip (continue guard or enclosing if)
+        casts = [n for n in walk_function(cv.node) if isinstance(n, ast.AugAssign) and isinstance(n.op, ast.Add) and isinstance(n.target, ast.Subscript)]
+        ok = bool(casts)
+        for n in casts:
+            ga = guard_atoms(cfg, cfg.node_of(n))
+            if not (("%s < 0" % ps_r[0], False) in ga and ("%s < 0" % ht_r[0], False) in ga):
+                ok = False
     ctx.ob(cv.qual, "untagged-sentinel-skipped", ok, cv.loc(), "reads whose PS or HP is the -1 default (after the -1 shift: < 0) are skipped" if ok else "the `< 0` skip for untagged reads is missing")
     # hop 6: components[pos] = phase_set (+0) ; writer component + 1
     cs = ctx.func(HP + ".consensus")
@@ -132,7 +175,7 @@ def r1(ctx):
     woff = _lin(wstore[0].value).get("", 0) if wstore else None
     led.append(("components -> written PS", woff, woff is not None, wps.loc(), "PS = component%+d" % woff if woff is not None else "?"))
     for hop, off, ok_, loc, txt in led:
-        ctx.ob("ledger", "hop:%s" % hop, bool(ok_), loc, "%s: %s (offset %s)" % (hop, txt, off) if ok_ else "%s: hop not recognised (%s)" % (hop, txt))
+        ctx.ob("ledger", "hop:%s" % hop, None if ok_ is None else bool(ok_), loc, "%s: %s (offset %s)" % (hop, txt, off) if ok_ else "%s: hop not recognised (%s)" % (hop, txt))
     vote_off = [o for k, o in offs if k == "votes"]
     total = None
     if isinstance(ps_off, int) and ps_r and vote_off and woff is not None:
@@ -146,6 +189,65 @@ def r1(ctx):
     if isinstance(hp_off, int) and ht_r:
         totalh = hp_off + ht_r[1]
     ctx.ob("ledger", "HP-offsets-sum-to-zero", totalh == 0, a.loc(), "HP: %+d (tag) %+d (read) = 0" % (hp_off, ht_r[1]) if totalh == 0 else "HP offsets sum to %s" % totalh)
+
+
+def _emissions(ctx, cs):
+    """Where consensus() emits a phased position: [{"stmt", "pos", "a0", "a1", "q"}] with the allele expressions that end up on
+    super-read 0 and 1.  Form A: the paired appends super_reads[0].append(Variant(pos, allele=A0, quality=Q)) /
+    super_reads[1].append(Variant(pos, allele=A1, quality=Q)).  Form B: one record list L.append((.., .., ..)) that the returned
+    pair of comprehensions [Variant(..) for (..) in L] maps onto the two super-reads."""
+    out = []
+    apps = [c for c in ctx.prog.calls_in(cs.node) if isinstance(c.func, ast.Attribute) and c.func.attr == "append" and u(c.func.value) in ("super_reads[0]", "super_reads[1]") and c.args and isinstance(c.args[0], ast.Call) and u(c.args[0].func) == "Variant"]
+    by_block = {}
+    for c in apps:
+        st_ = util.stmt_of(c)
+        by_block.setdefault(id(getattr(st_, "parent", None)), []).append((st_, c))
+    for lst in by_block.values():
+        z = [x for x in lst if u(x[1].func.value) == "super_reads[0]"]
+        o = [x for x in lst if u(x[1].func.value) == "super_reads[1]"]
+        if len(z) == 1 and len(o) == 1:
+            v0, v1 = z[0][1].args[0], o[0][1].args[0]
+            kw0 = {k.arg: k.value for k in v0.keywords}
+            kw1 = {k.arg: k.value for k in v1.keywords}
+            if v0.args and v1.args and u(v0.args[0]) == u(v1.args[0]) and "allele" in kw0 and "allele" in kw1:
+                out.append({"stmt": z[0][0], "stmts": [z[0][0], o[0][0]], "pos": u(v0.args[0]), "a0": kw0["allele"], "a1": kw1["allele"], "q": u(kw0.get("quality")) if kw0.get("quality") is not None else None})
+        else:
+            return None  # unpaired appends: not a shape this reader understands
+    if out or apps:
+        return out
+    # form B
+    rets = [r_ for r_ in walk_function(cs.node) if isinstance(r_, ast.Return) and isinstance(r_.value, ast.Tuple) and len(r_.value.elts) == 2]
+    if len(rets) != 1:
+        return None
+    mutated = {util.root_name(s_.target) for s_ in util.store_sites(cs.node) if s_.kind == "call"}
+    sr = util.expand_single_defs(cs.node, rets[0].value.elts[0], keep=tuple(x for x in mutated if x))
+    if not (isinstance(sr, (ast.List, ast.Tuple)) and len(sr.elts) == 2 and all(isinstance(e, ast.ListComp) and len(e.generators) == 1 and not e.generators[0].ifs for e in sr.elts)):
+        return None
+    lname = u(sr.elts[0].generators[0].iter)
+    maps = []
+    for e in sr.elts:
+        g = e.generators[0]
+        if u(g.iter) != lname or not (isinstance(g.target, ast.Tuple) and all(isinstance(t, ast.Name) for t in g.target.elts)) or not (isinstance(e.elt, ast.Call) and u(e.elt.func) == "Variant" and e.elt.args):
+            return None
+        names = [t.id for t in g.target.elts]
+        kw = {k.arg: k.value for k in e.elt.keywords}
+        if "allele" not in kw or u(e.elt.args[0]) not in names or u(kw["allele"]) not in names:
+            return None
+        maps.append((names.index(u(e.elt.args[0])), names.index(u(kw["allele"])), names.index(u(kw["quality"])) if "quality" in kw and u(kw["quality"]) in names else None, len(names)))
+    if maps[0][0] != maps[1][0] or maps[0][3] != maps[1][3]:
+        return None
+    for c in ctx.prog.calls_in(cs.node):
+        if isinstance(c.func, ast.Attribute) and c.func.attr == "append" and u(c.func.value) == lname:
+            if not (c.args and isinstance(c.args[0], ast.Tuple) and len(c.args[0].elts) == maps[0][3]):
+                return None
+            el = c.args[0].elts
+            st_ = util.stmt_of(c)
+            out.append({"stmt": st_, "stmts": [st_], "pos": u(el[maps[0][0]]), "a0": el[maps[0][1]], "a1": el[maps[1][1]], "q": u(el[maps[0][2]]) if maps[0][2] is not None else None})
+    # nothing else may put records into the list
+    others = [s_ for s_ in util.store_sites(cs.node) if util.root_name(s_.target) == lname and not (s_.kind == "call" and s_.method in ("append", "sort"))]
+    if others:
+        return None
+    return out
 
 
 def r2(ctx):
@@ -170,17 +272,14 @@ def r2(ctx):
             ok = "ht" in ops and any(o.startswith("allele_to_id[variant.position][variant.allele]") for o in ops) and u(sl.elts[0]) == "ps" and u(aug[0].value) == "variant.quality"
     ctx.ob(cv.qual, "vote-key-is-haplotype-xor-allele-id", ok, cv.loc(aug[0]) if aug else cv.loc(), "votes[pos][(ps, ht ^ allele id)] += quality" if ok else "vote accumulation is not keyed by (ps, ht ^ allele_to_id[pos][allele])")
     cs = ctx.func(HP + ".consensus")
-    apps = [c for c in ctx.prog.calls_in(cs.node) if isinstance(c.func, ast.Attribute) and c.func.attr == "append" and u(c.func.value) in ("super_reads[0]", "super_reads[1]")]
-    vote_apps = [c for c in apps if "id_to_allele" in u(c)]
-    ok = len(vote_apps) == 2
+    ems = _emissions(ctx, cs)
+    vote_ems = [e for e in (ems or []) if "id_to_allele" in u(e["a0"]) or "id_to_allele" in u(e["a1"])]
+    ok = None if ems is None else len(vote_ems) == 1
     if ok:
-        a0 = [c for c in vote_apps if u(c.func.value) == "super_reads[0]"][0]
-        a1 = [c for c in vote_apps if u(c.func.value) == "super_reads[1]"][0]
-        al0 = [k.value for k in a0.args[0].keywords if k.arg == "allele"][0]
-        al1 = [k.value for k in a1.args[0].keywords if k.arg == "allele"][0]
-        ok = u(al0) == "id_to_allele[pos][best_allele]" and _lin(al1.slice) == {"best_allele": -1, "": 1} and u(al1.value) == "id_to_allele[pos]"
-        ok = ok and u(a0.args[0].args[0]) == "pos" and u(a1.args[0].args[0]) == "pos"
-    ctx.ob(cs.qual, "winner-to-haplotype-0-complement-to-1", ok, cs.loc(vote_apps[0]) if vote_apps else cs.loc(), "super-read 0 gets the winning id's allele, super-read 1 the complementary id's allele" if ok else "consensus does not put best_allele on super-read 0 and 1 - best_allele on super-read 1")
+        e = vote_ems[0]
+        al0, al1 = e["a0"], e["a1"]
+        ok = u(al0) == "id_to_allele[pos][best_allele]" and isinstance(al1, ast.Subscript) and _lin(al1.slice) == {"best_allele": -1, "": 1} and u(al1.value) == "id_to_allele[pos]" and e["pos"] == "pos"
+    ctx.ob(cs.qual, "winner-to-haplotype-0-complement-to-1", ok, cs.loc(vote_ems[0]["stmt"]) if vote_ems else cs.loc(), "super-read 0 gets the winning id's allele, super-read 1 the complementary id's allele" if ok else ("consensus does not put best_allele on super-read 0 and 1 - best_allele on super-read 1" if ok is False else "cannot read how consensus() fills the two super-reads"))
     bc = ctx.func(HP + ".best_candidate")
     # ((phase_set, allele), score) = first entry of the candidates ordered by descending score (sorted(...) or list + .sort)
     first = [n for n in walk_function(bc.node) if isinstance(n, ast.Assign) and isinstance(n.value, ast.Subscript) and isinstance(n.value.value, ast.Name) and isinstance(n.value.slice, ast.Constant) and n.value.slice.value == 0 and u(n.targets[0]).replace(" ", "") == "((phase_set,allele),score)"]
@@ -230,15 +329,13 @@ def r3(ctx):
         lp = loops[0]
         tnames = [u(t) for t in (lp.target.elts if isinstance(lp.target, ast.Tuple) else [lp.target])]
         posv, phv = (tnames + [None])[:2] if len(tnames) == 2 else (tnames[0], "%s[%s]" % (phased_p, tnames[0]))
-        apps = [c for c in ast.walk(lp) if isinstance(c, ast.Call) and isinstance(c.func, ast.Attribute) and c.func.attr == "append" and u(c.func.value) in ("super_reads[0]", "super_reads[1]")]
-        a0 = [c for c in apps if u(c.func.value) == "super_reads[0]"]
-        a1 = [c for c in apps if u(c.func.value) == "super_reads[1]"]
-        ok = len(a0) == 1 and len(a1) == 1
+        ems3 = _emissions(ctx, cs)
+        inl = [e for e in (ems3 or []) if any(x is e["stmt"] for x in ast.walk(lp))]
+        ok = len(inl) == 1
         if ok:
-            al0 = [k.value for k in a0[0].args[0].keywords if k.arg == "allele"]
-            al1 = [k.value for k in a1[0].args[0].keywords if k.arg == "allele"]
-            ok = bool(al0) and bool(al1) and u(al0[0]) == "%s.phase[0]" % phv and u(al1[0]) == "%s.phase[1]" % phv and u(a0[0].args[0].args[0]) == posv
-            detail = "carried alleles are %s / %s" % (u(al0[0]) if al0 else "?", u(al1[0]) if al1 else "?")
+            e = inl[0]
+            ok = u(e["a0"]) == "%s.phase[0]" % phv and u(e["a1"]) == "%s.phase[1]" % phv and e["pos"] == posv
+            detail = "carried alleles are %s / %s" % (u(e["a0"]), u(e["a1"]))
         if ok:
             # only calls without a usable phase are skipped
             head = cfg.node_of(lp)
@@ -270,10 +367,11 @@ def r3(ctx):
     vl = [n for n in walk_function(cs.node) if isinstance(n, ast.For) and u(n.iter) in ("votes.items()", "votes")]
     ok2 = False
     if len(vl) == 1 and loops:
-        vapps = [c for c in ast.walk(vl[0]) if isinstance(c, ast.Call) and isinstance(c.func, ast.Attribute) and c.func.attr == "append" and u(c.func.value).startswith("super_reads[")]
+        ems4 = _emissions(ctx, cs) or []
+        vapps = [st_ for e in ems4 for st_ in e["stmts"] if any(x is st_ for x in ast.walk(vl[0]))]
         pos = u(vl[0].target.elts[0]) if isinstance(vl[0].target, ast.Tuple) else u(vl[0].target)
         ok2 = bool(vapps)
-        effects = [cfg.node_containing(c) for c in vapps] + [cfg.node_of(s_.stmt) for s_ in util.store_sites(vl[0]) if s_.kind == "subscript" and u(s_.target.value) == "components"]
+        effects = [cfg.node_of(c) for c in vapps] + [cfg.node_of(s_.stmt) for s_ in util.store_sites(vl[0]) if s_.kind == "subscript" and u(s_.target.value) == "components"]
         for node in effects:
             ga = guard_atoms(cfg, node)
             if not ((("%s in components" % pos), False) in ga or (("None is %s[%s]" % (phased_p, pos)), True) in ga):
@@ -292,11 +390,53 @@ def r3(ctx):
     ctx.ob(cs.qual, "phase-set-is-the-voted-or-carried-one", okr, cs.loc(rebound[0]) if rebound else (cs.loc(odd[0].stmt) if odd else cs.loc()), "components[pos] is only ever the winning vote's phase set (the reads' PS) or the input call's own block id; the map is returned as recorded" if okr else "`%s` changes the phase set of a position after it was recorded: a variant no longer gets the phase set of the reads that cover it / its input phase set" % bad_txt)
     # phased dict is filled for every variant of the table
     run = ctx.func(HP + ".run_haplotagphase")
-    st = [s for s in util.store_sites(run.node) if s.kind == "subscript" and u(s.target.value) == "phased"]
-    ok = len(st) == 1 and u(st[0].target.slice) == "variant.position" and u(st[0].value) == "phase"
-    ctx.ob(run.qual, "input-phase-recorded-per-position", ok, run.loc(st[0].stmt) if st else run.loc(), "phased[position] = the call's input phase for every variant" if ok else "the input phase is not recorded per position")
+    def zip_sources(target, it, depth=0):
+        """{loop variable: text of the sequence it walks} for `for <target> in zip(A, zip(B, C))` / list(zip(..)) / a local bound to one"""
+        out = {}
+        if depth > 4:
+            return out
+        if isinstance(it, ast.Name):
+            d_ = util.single_def(run.node, it.id)
+            if d_ is not None:
+                return zip_sources(target, d_, depth + 1)
+        if isinstance(it, ast.Call) and u(it.func) in ("list", "tuple") and len(it.args) == 1:
+            return zip_sources(target, it.args[0], depth + 1)
+        if isinstance(it, ast.Call) and u(it.func) == "zip" and isinstance(target, ast.Tuple) and len(target.elts) == len(it.args):
+            for t_, a_ in zip(target.elts, it.args):
+                if isinstance(t_, ast.Name):
+                    out[t_.id] = u(a_)
+                else:
+                    out.update(zip_sources(t_, a_, depth + 1))
+        return out
+
+    cons = [c for c in ctx.prog.calls_in(run.node) if u(c.func) == "consensus"]
+    ctx.require(len(cons) == 1, "run_haplotagphase no longer calls consensus()")
+    parg = util.bound_args(cons[0], cs.node, skip_self=False)
+    pexpr = parg.get(phased_p) if parg else None
+    st = [s for s in util.store_sites(run.node) if s.kind == "subscript" and isinstance(pexpr, ast.Name) and u(s.target.value) == pexpr.id]
+    ok = None
+    anchor = util.stmt_of(cons[0])
+    if isinstance(pexpr, ast.Name) and len(st) == 1:
+        # filled entry by entry in a loop over the table
+        lp_ = st[0].stmt
+        while lp_ is not None and not isinstance(lp_, ast.For):
+            lp_ = getattr(lp_, "parent", None)
+        src = zip_sources(lp_.target, lp_.iter) if lp_ is not None else {}
+        k_, v_ = st[0].target.slice, st[0].value
+        ok = isinstance(k_, ast.Attribute) and k_.attr == "position" and src.get(u(k_.value), "").endswith(".variants") and src.get(u(v_)) == "phases"
+        anchor = st[0].stmt
+    else:
+        px = util.expand_single_defs(run.node, pexpr, keep=("phases", "genotypes", "variant_table")) if pexpr is not None else None
+        if isinstance(px, ast.DictComp) and len(px.generators) == 1 and not px.generators[0].ifs:
+            g_ = px.generators[0]
+            src = zip_sources(g_.target, g_.iter)
+            ok = isinstance(px.key, ast.Attribute) and px.key.attr == "position" and src.get(u(px.key.value), "").endswith(".variants") and src.get(u(px.value)) == "phases"
+    if ok:
+        ph_ = util.single_def(run.node, "phases")
+        ok = ph_ is not None and isinstance(ph_, ast.Call) and isinstance(ph_.func, ast.Attribute) and ph_.func.attr == "phases_of"
+    ctx.ob(run.qual, "input-phase-recorded-per-position", ok, run.loc(anchor), "phased[position] = the call's input phase for every variant of the table" if ok else ("the input phase is not recorded per position" if ok is False else "cannot read how the `phased` argument of consensus() is built"))
     # ... of the table as it was read: no row of the chromosome's table is removed or replaced before the phases are collected
-    tl = [n for n in walk_function(run.node) if isinstance(n, ast.For) and isinstance(n.target, ast.Name) and "vcf_reader" in u(n.iter) and not u(n.iter).endswith(".samples") and st and any(x is st[0].stmt for x in ast.walk(n))]
+    tl = [n for n in walk_function(run.node) if isinstance(n, ast.For) and isinstance(n.target, ast.Name) and "vcf_reader" in u(n.iter) and not u(n.iter).endswith(".samples") and any(x is anchor for x in ast.walk(n))]
     if len(tl) == 1:
         tv = tl[0].target.id
         # VariantTable methods that store through self, directly or through another method of the table
